@@ -304,7 +304,7 @@ def _parse_einsum_entry(einsum_entry: dict) -> dict:
                 )
             name2access[name][k] = v
 
-    einsum_entry["name"] = parsed["name"]
+    einsum_entry.setdefault("name", parsed["name"])
     einsum_entry["tensor_accesses"] = list(name2access.values())
     einsum_entry["renames"] = rename_list_factory(einsum_entry.get("renames", {}))
 
